@@ -32,6 +32,8 @@ type hprog struct {
 	Hijack     bool // take the connection over (Upgrade), answer 101 and close
 	Interim    int  // send this interim (1xx) response first
 	AbortAfter int  // > 0: break the response off (http.ErrAbortHandler) after this many parts
+	FlushAfter int  // > 0: flush once, after this many parts (and not again)
+	Status2    int  // != 0: a second, superfluous WriteHeader call right after the first (the first must win)
 }
 
 type progServer struct {
@@ -86,6 +88,9 @@ func (ps *progServer) base(w http.ResponseWriter, r *http.Request) {
 	}
 	if p.Status != 0 {
 		w.WriteHeader(p.Status)
+		if p.Status2 != 0 {
+			w.WriteHeader(p.Status2)
+		}
 	}
 	fl, _ := w.(http.Flusher)
 	if p.FlushFirst && fl != nil {
@@ -98,7 +103,7 @@ func (ps *progServer) base(w http.ResponseWriter, r *http.Request) {
 		if _, err := w.Write(x); err != nil {
 			return
 		}
-		if p.FlushEach && fl != nil {
+		if (p.FlushEach || p.FlushAfter == i+1) && fl != nil {
 			fl.Flush()
 		}
 	}
@@ -198,14 +203,15 @@ type c14Case struct {
 	Method   string
 	Status   int
 	Comp     []int
-	Flush    string // none, first, each
+	Flush    string // none, first (before any write), each, after-first (once, after the first write)
+	Status2  int    // second, superfluous WriteHeader
 	Declare  bool
 	Interim  int
 	Entity   int // bodiless response that declares this entity length (HEAD, 304); 0 = none
 }
 
 func (c c14Case) String() string {
-	return fmt.Sprintf("L=%d pos=%s %s status=%d writes=%v flush=%s declare=%v interim=%d entity=%d", c.L, c.Position, c.Method, c.Status, c.Comp, c.Flush, c.Declare, c.Interim, c.Entity)
+	return fmt.Sprintf("L=%d pos=%s %s status=%d writes=%v flush=%s declare=%v interim=%d entity=%d status2=%d", c.L, c.Position, c.Method, c.Status, c.Comp, c.Flush, c.Declare, c.Interim, c.Entity, c.Status2)
 }
 
 func (c c14Case) prog() *hprog {
@@ -214,7 +220,8 @@ func (c c14Case) prog() *hprog {
 		hd = append(hd, wire.HeaderLine{"Content-Length", fmt.Sprint(c.Entity)})
 	}
 	return &hprog{Status: c.Status, Header: hd, Parts: partsOf(c.Comp, 5),
-		FlushFirst: c.Flush == "first", FlushEach: c.Flush == "each", DeclareLen: c.Declare, Interim: c.Interim}
+		FlushFirst: c.Flush == "first", FlushEach: c.Flush == "each", DeclareLen: c.Declare, Interim: c.Interim, Status2: c.Status2,
+		FlushAfter: map[bool]int{true: 1}[c.Flush == "after-first"]}
 }
 
 func c14Total(comp []int) int {
@@ -344,8 +351,8 @@ func TestVerifC14(t *testing.T) {
 						}
 						seen[n] = true
 						for _, comp := range compositions(n) {
-							for _, fl := range []string{"none", "first", "each"} {
-								if n == 0 && fl == "each" {
+							for _, fl := range []string{"none", "first", "each", "after-first"} {
+								if n == 0 && fl == "each" || len(comp) < 2 && fl == "after-first" {
 									continue
 								}
 								for _, decl := range []bool{false, true} {
@@ -370,8 +377,26 @@ func TestVerifC14(t *testing.T) {
 						if n > 0 {
 							comp = []int{n}
 						}
-						run(c14Case{L: L, Position: pos, Method: method, Status: status, Comp: comp, Flush: "none", Interim: 103})
+						for _, ic := range []int{103, 100, 102, 199} {
+							if ic != 103 && (method == "HEAD" || status == 0 || status == 302) {
+								continue
+							}
+							run(c14Case{L: L, Position: pos, Method: method, Status: status, Comp: comp, Flush: "none", Interim: ic})
+						}
 					}
+				}
+			}
+			// a superfluous second WriteHeader: the first one counts
+			for _, st := range [][2]int{{404, 200}, {200, 500}, {204, 200}, {301, 404}} {
+				for _, n := range []int{0, 1, L, L + 1} {
+					if st[0] == 204 && n != 0 {
+						continue
+					}
+					comp := []int{}
+					if n > 0 {
+						comp = []int{n}
+					}
+					run(c14Case{L: L, Position: pos, Method: "GET", Status: st[0], Status2: st[1], Comp: comp, Flush: "none"})
 				}
 			}
 			// bodiless responses that declare the length of the entity they stand for (what every
